@@ -503,6 +503,11 @@ theorem Index.namesClassOnly_keeps (a0 : _) : Keeps R (Index.namesClassOnly a0) 
   keeps
 macro_rules | `(tactic| keeps_prim) => `(tactic| (apply Index.namesClassOnly_keeps <;> assumption))
 
+theorem Index.multiclassParent_keeps (a0 a1 : _) : Keeps R (Index.multiclassParent r a0 a1) := by
+  unfold Index.multiclassParent
+  keeps
+macro_rules | `(tactic| keeps_prim) => `(tactic| (apply Index.multiclassParent_keeps <;> assumption))
+
 theorem Index.defmMulticlassParent_keeps (a0 a1 : _) : Keeps R (Index.defmMulticlassParent r a0 a1) := by
   unfold Index.defmMulticlassParent
   keeps
